@@ -478,6 +478,25 @@ func (o *moneyOracle) c07(e *Env, si *StepInfo) {
 	if isAdd && si.OK {
 		t.CapPaid[signer] = intOr0(t.CapPaid, signer).Add(sumEdges(si, signer, nodeEsc))
 	}
+	if (isAdd || isRemove) && si.OK {
+		// capacity is bought and sold at one rate: bytes credited per coin pledged, learnt from the first purchase
+		pp, cp := prev.Node.Pledges[signer], cur.Node.Pledges[signer]
+		dBytes := cp.TotalStorage - pp.TotalStorage
+		dCoins := sdk.ZeroInt()
+		if !cp.TotalStoragePledged.Amount.IsNil() {
+			dCoins = cp.TotalStoragePledged.Amount
+		}
+		if !pp.TotalStoragePledged.Amount.IsNil() {
+			dCoins = dCoins.Sub(pp.TotalStoragePledged.Amount)
+		}
+		if t.BytesPerCoin == 0 {
+			if isAdd && dCoins.IsPositive() && dBytes > 0 && dBytes%dCoins.Int64() == 0 {
+				t.BytesPerCoin = dBytes / dCoins.Int64()
+			}
+		} else if dCoins.MulRaw(t.BytesPerCoin).Int64() != dBytes {
+			o.once(e, "C07", "C07.capacity", lab, "capacity-bytes-vs-coins", signer, fmt.Sprintf("provider %s: capacity changed by %d bytes while the capacity pledge changed by %s coins (rate seen before: %d bytes per coin)", fmtAddr(signer), dBytes, dCoins, t.BytesPerCoin))
+		}
+	}
 	if isRemove && si.OK {
 		pp := prev.Node.Pledges[signer]
 		cp := cur.Node.Pledges[signer]
